@@ -1734,8 +1734,12 @@ impl<'a, R: FileManager> FrontendCtx<'a, R> {
                                 DiagnosticInfoMessage::AnyhowError(e.to_string()),
                             )
                         })?;
-                        let res = self
-                            .semtype_to_runtype(subtracted_ty, &mut ctx, anchor)?
+                        let res = self.semtype_to_runtype(subtracted_ty, &mut ctx, anchor)?;
+                        // the result may refer to helper types that were defined just now
+                        let validators_vec = self.validators_vec();
+                        let validators_reference_vec: Vec<&NamedSchema> =
+                            validators_vec.iter().collect();
+                        let res = res
                             .remove_nots_of_intersections_and_empty_of_union(
                                 &validators_reference_vec,
                                 &mut ctx,
